@@ -18,6 +18,7 @@ from .. import gen
 from ..ref import midi1
 
 ID = 'C05'
+ANCHORS = ['mido.tokenizer', 'mido.parser', 'mido.backends._parser_queue']
 LEVEL = 'exploration'
 RULE = ('streams are concatenations of 1-6 pieces (complete messages of all 18 types, '
         'messages cut short at every position, stray data, stray/undefined status bytes, '
